@@ -34,7 +34,14 @@ def td : Str := [116, 100]
 def th : Str := [116, 104]
 def script : Str := [115, 99, 114, 105, 112, 116]
 def style : Str := [115, 116, 121, 108, 101]
+def metaE : Str := [109, 101, 116, 97]
+def link : Str := [108, 105, 110, 107]
+def template : Str := [116, 101, 109, 112, 108, 97, 116, 101]
 end N
+
+/-- parents at whose end `</p>` must stay (a, audio, del, ins, map, noscript, video) -/
+def pParents : List Str := [[97], [97, 117, 100, 105, 111], [100, 101, 108], [105, 110, 115], [109, 97, 112],
+  [110, 111, 115, 99, 114, 105, 112, 116], [118, 105, 100, 101, 111]]
 
 /-- the block-level names after which html5lib omits `</p>` (optionaltags.py lines 132-137; note the obsolete
 `datagrid`, `dialog`, `dir`, and no `details`/`figure`/`main`…: the recorded deviations of C13) -/
@@ -91,8 +98,9 @@ def omitsEnd (n : Str) (x : Option Tok) : Bool :=
   else if n = N.dt then nextStart x [N.dt, N.dd]
   -- dd: followed by a dd or dt element, or no more content
   else if n = N.dd then nextStart x [N.dt, N.dd] || noMore x
-  -- p: followed by one of the block elements (start OR empty tag, e.g. <hr>), or no more content
-  else if n = N.p then nextStartOrEmpty x pFollowers || noMore x
+  -- p: followed by one of the block elements (start OR empty tag, e.g. <hr>), or no more content in a parent that is
+  -- not an a, audio, del, ins, map, noscript or video element (the end tag that follows names the parent)
+  else if n = N.p then nextStartOrEmpty x pFollowers || (noMore x && !nextEnd x pParents)
   -- option: followed by an option or optgroup element, or no more content
   else if n = N.option then nextStart x [N.option, N.optgroup] || noMore x
   -- rt, rp: followed by an rt or rp element, or no more content
@@ -115,8 +123,9 @@ def omitsStart (n : Str) (p x : Option Tok) : Bool :=
   if n = N.html then !nextSpaceOrComment x
   -- head: the first thing inside is an element — XXX or the head element is empty (`</head>` follows)
   else if n = N.head then nextIsElement x || nextEnd x [N.head]
-  -- body: the first thing inside is not a space character or a comment — XXX and never a script/style START tag
-  else if n = N.body then !nextSpaceOrComment x && !nextStart x [N.script, N.style]
+  -- body: the first thing inside is not a space character or a comment — XXX and never an element that would be put
+  -- into head (meta, link, script, style, template; start or empty tag)
+  else if n = N.body then !nextSpaceOrComment x && !nextStartOrEmpty x [N.metaE, N.link, N.script, N.style, N.template]
   -- colgroup: the first thing inside is a col element (the "not preceded by a colgroup whose end tag was omitted"
   -- side condition is handled in `omitsEnd colgroup`)
   else if n = N.colgroup then nextStartOrEmpty x [N.col]
@@ -147,8 +156,8 @@ theorem C13_completeness_end (n : Str) (x : Option Tok) : isOptionalEnd n x = .o
        · cases x <;>
           simp [isOptionalEnd, omitsEnd, N.html, N.head, N.body, N.li, N.optgroup, N.option, N.tr, N.dt, N.dd, N.p, N.rt,
             N.rp, N.colgroup, N.thead, N.tbody, N.tfoot, N.td, N.th, otokType, otokName, Tok.typeName, Tok.nameE,
-            nextStart, nextStartOrEmpty, nextSpaceOrComment, noMore, pFollowers] <;>
-          exact beq_dec _ _)
+            nextStart, nextStartOrEmpty, nextSpaceOrComment, noMore, nextEnd, pParents, pFollowers] <;>
+          (first | exact beq_dec _ _ | simp [beq_dec] | grind))
   · simp [endNames] at hn
     simp [isOptionalEnd, omitsEnd, N.html, N.head, N.body, N.li, N.optgroup, N.option, N.tr, N.dt, N.dd, N.p, N.rt, N.rp,
       N.colgroup, N.thead, N.tbody, N.tfoot, N.td, N.th, hn]
@@ -164,9 +173,9 @@ theorem C13_completeness_start (n : Str) (p x : Option Tok) : isOptionalStart n 
             nextStart, nextStartOrEmpty, nextSpaceOrComment, nextIsElement, nextEnd]
        · cases x <;>
           simp [isOptionalStart, omitsStart, N.html, N.head, N.body, N.colgroup, N.col, N.tbody, N.thead, N.tfoot, N.tr,
-            N.script, N.style, otokType, otokName, Tok.typeName, Tok.nameE,
+            N.script, N.style, N.metaE, N.link, N.template, otokType, otokName, Tok.typeName, Tok.nameE,
             nextStart, nextStartOrEmpty, nextSpaceOrComment, nextIsElement, nextEnd, prevEnd] <;>
-          (try exact beq_dec _ _) <;>
+          (try exact beq_dec _ _) <;> (try (simp [beq_dec]; done)) <;>
           (rcases p with _ | pt
            · simp [beq_dec]
            · cases pt <;> simp [otokTypeE, Tok.typeName, beq_dec] <;> split <;> simp_all <;> grind))
@@ -334,6 +343,6 @@ example : omitsStart N.tbody (some (.endTag none N.thead)) (some (.startTag none
 example : omitsStart N.tbody none (some (.startTag none N.tr [])) = true := by decide
 example : omitsStart N.head none (some (.endTag none N.head)) = true := by decide           -- empty head
 example : omitsStart N.body none (some (.startTag none N.script [])) = false := by decide
-example : omitsStart N.body none (some (.emptyTag none N.script [])) = true := by decide    -- EmptyTag is not checked
+example : omitsStart N.body none (some (.emptyTag none N.metaE [])) = false := by decide
 
 end H5.Props.C13b
